@@ -183,3 +183,9 @@ where
     };
     normalize_path(&path.display().to_string()).to_string()
 }
+
+/// verification hook: exposes the private base-relative path formatter unchanged
+#[cfg(feature = "verif")]
+pub fn verif_path_string_from_base(base: &PathBuf, path: &PathBuf) -> String {
+    path_string_from_base(base, path)
+}
